@@ -216,7 +216,8 @@ def addResponseHeaders (c : ClientForm) (rm : RespMeta) (k : Sink) : Option Nat 
         let h := setIf k.hdr (!rm.compression.isEmpty) (s "Grpc-Encoding") rm.compression
         let h := setIf h (!rm.acceptCompression.isEmpty) (s "Grpc-Accept-Encoding") acc
         { k with hdr := h }
-    if c == .grpc then
+    -- a trailers-only response (the end is in the headers) declares no trailers
+    if c == .grpc && rm.end.isNone then
       let keys := (rm.pendingTrailerKeys ++ rm.pendingTrailers.map (fun e => canonKey e.1)).eraseDups
       let h := keys.foldl (fun acc k => Hdr.add acc (s "Trailer") k) k.hdr
       let h := if keys.contains (s "Grpc-Status") then h else Hdr.add h (s "Trailer") (s "Grpc-Status")
